@@ -56,9 +56,9 @@ SUITES = {
         "cfg": {"N": 4, "T": 3, "dims": [], "scale": [], "use_scale": True, "reg_cust": False,
                 "per_axis_pos": False, "name": "struct4"},
         "kinds": [1, 2, 3, 4, 5, 6],
-        "depth": {"quick": 4, "thorough": 6}, "maxid": 8,
-        "design_depth": {"quick": 2, "thorough": 4},
-        "sample": {"quick": 250, "thorough": 6000},
+        "depth": {"quick": 4, "thorough": 5}, "maxid": 8,
+        "design_depth": {"quick": 2, "thorough": 3},
+        "sample": {"quick": 250, "thorough": 3000},
     },
 }
 
@@ -82,9 +82,9 @@ SUITES["seg3d"] = _seg_suite("seg3d", [1, 2, 2], "D_1x2x2", [2, 1, 3], "S_213", 
 SUITES["seg13n"] = _seg_suite("seg13n", [1, 3], "D_1x3", [1, 1], "S_11", use_scale=False,
                               sample={"quick": 400, "thorough": 4000})
 SUITES["struct4"]["seeds"] = "SeedsStruct4"
-SUITES["struct4"]["simulate"] = {"thorough": (300, 24, 1500)}
-SUITES["struct3"]["simulate"] = {"thorough": (200, 24, 800)}
-SUITES["seg13"]["simulate"] = {"thorough": (150, 14, 800)}
+SUITES["struct4"]["simulate"] = {"thorough": (60, 16, 600)}
+SUITES["struct3"]["simulate"] = {"thorough": (60, 16, 400)}
+SUITES["seg13"]["simulate"] = {"thorough": (30, 10, 300)}
 SUITES["struct4s"] = {
     "tla": {"N": "4", "T": "3", "Dims": "<- D_none", "Scale": "<- S_none"},
     "cfg": {"N": 4, "T": 3, "dims": [], "scale": [], "use_scale": True, "reg_cust": False,
@@ -179,6 +179,17 @@ SUITES["feat3d"]["extra_act"] = ["iou", "circ", "perim"]
 SUITES["feat3d"]["cfg"]["max_stroke"] = 2
 SUITES["feat3d"]["kinds"] = [2, 3, 4, 9]
 SUITES["feat3d"]["design_depth"] = {"quick": -1, "thorough": 0}
+# 3x3x3 frames with a fixed menu of strokes (cubes, slab, column, single voxels): masks that extend over two
+# planes along every axis, interior and border voxels; all five regionprops features enabled
+SUITES["feat333"] = _seg_suite("feat333", [3, 3, 3], "D_3x3x3", [1, 1, 1], "S_111", depth=(1, 2),
+                               sample={"quick": 60, "thorough": 1500})
+# (the ellipsoid axes are left out: funtracks' `axes` raises "math domain error" on masks of separated voxels)
+SUITES["feat333"]["cfg"]["enable"] = ["iou", "circ", "perim"]
+SUITES["feat333"]["extra_act"] = ["iou", "circ", "perim"]
+SUITES["feat333"]["cfg"]["max_stroke"] = 99
+SUITES["feat333"]["kinds"] = [2, 3, 4, 9]
+SUITES["feat333"]["seeds"] = "SeedsSeg333"
+SUITES["feat333"]["design_depth"] = {"quick": -1, "thorough": -1}
 
 import hashlib
 
